@@ -1017,6 +1017,9 @@ impl MmapXen {
         len: usize,
     ) -> MmapXenSlice {
         match mmap_xen {
+            // An empty range needs no mapping (and the grant device refuses to map zero pages);
+            // the returned pointer is never dereferenced.
+            Some(_) if len == 0 => MmapXenSlice::raw(addr),
             Some(mmap_xen) => mmap_xen.mmap.mmap_slice(addr, prot, len).unwrap(),
             None => MmapXenSlice::raw(addr),
         }
